@@ -288,7 +288,7 @@ def validate(work, name, trace):
         for dg in diags:
             if dg["line"] == ln:
                 why = dg["why"]
-        rej.append(dict(run=runs[ri][2], event=ev, invariant=inv, why=why, lines=lines[runs[ri][0]:runs[ri][1]], trace=trace))
+        rej.append(dict(run=runs[ri][2], event=ev, invariant=inv, why=why, lines=lines[runs[ri][0]:runs[ri][1]], trace=trace, pos=absline - runs[ri][0]))
         start = ri + 1
     return ok, rej
 
@@ -305,7 +305,30 @@ def attribute(r):
             return ("C14",)
         return DIAG_PROP.get(r["why"] or "", ("C14",))
     p = EV_PROP.get(ev, "C16")
-    return p if isinstance(p, tuple) else (p,)
+    p = p if isinstance(p, tuple) else (p,)
+    if ev == "unlocking" and left_without_sending(r):
+        # the task's goroutine is on its way out (deferred Unlock) and never handed its outcome to the scheduler: the
+        # outcome goes unreported (C14) and Run waits for it for ever (C16)
+        p = tuple(sorted(set(p) | {"C14", "C16"}))
+    return p
+
+
+def left_without_sending(r):
+    """the rejected `unlocking` of a task follows its `locked` with no `sending` in between"""
+    ev = r["event"]
+    sent = None
+    for x in r["lines"][:r.get("pos", 0)]:
+        try:
+            e = json.loads(x)
+        except ValueError:
+            continue
+        if e.get("id") != ev.get("id") or e.get("g") != ev.get("g"):
+            continue
+        if e.get("ev") == "locked":
+            sent = False
+        elif e.get("ev") == "sending" and sent is not None:
+            sent = True
+    return sent is False
 
 
 def check(prop, tier, seed, work, replay, t0):
